@@ -246,13 +246,30 @@ def exception_reps(named, with_base=True):
     """
     Representative exception classes for "any exception": every named class, a fresh subclass of
     each, a fresh class inheriting from each *pair* of unrelated named classes (where Python allows),
-    an unrelated Exception and (optionally) an unrelated BaseException.  Complete w.r.t. except-clause
-    matching on the named classes for single and double inheritance.
+    every proper base of a named class below Exception and a fresh sibling under each such base, an unrelated Exception and
+    (optionally) an unrelated BaseException.  Complete w.r.t. except-clause matching on the named classes for single and
+    double inheritance, and sensitive to an except-clause widened to a parent class.
     """
     named = list(dict.fromkeys(named))
     reps = list(named)
     for c in named:
         reps.append(type(f'Sub_{c.__name__}', (c,), {}))
+    # the neighbourhood in the class hierarchy: the proper bases of every named class up to (not including) Exception --
+    # an except-clause WIDENED to a parent class, or a class re-parented under a named one, changes which of these match --
+    # and a fresh sibling under each such base (an error of the same family that is none of the named ones)
+    stop = {Exception, BaseException, object}
+    for c in named:
+        for base in c.__mro__[1:]:
+            if base in stop or not (isinstance(base, type) and issubclass(base, BaseException)):
+                continue
+            if base not in reps:
+                reps.append(base)
+            sib = f'Sibling_under_{base.__name__}'
+            if not any(r.__name__ == sib for r in reps):
+                try:
+                    reps.append(type(sib, (base,), {}))
+                except TypeError:
+                    pass
     for i, a in enumerate(named):
         for b in named[i + 1:]:
             if issubclass(a, b) or issubclass(b, a):
